@@ -204,17 +204,8 @@ func CheckRestartState(sys *core.Sys, specs []gen.PipeSpec, wantIDs []string, la
 			}
 		}
 	}
-	// let the probes finish
-	for i := 0; i < 2000; i++ {
-		w := sys.Gates.Waiting()
-		for _, k := range w {
-			sys.Gates.Release(k[0], k[1], core.Outcome{Kind: core.OutOK})
-		}
-		if len(w) == 0 && i > 3 {
-			break
-		}
-		time.Sleep(100 * time.Microsecond)
-	}
+	// let the probes (and whatever they wait for) run to their end
+	DrainAll(sys)
 	// no accepted job is stranded: at a logical quiescence a probe may only still wait if a job that THIS runner started
 	// occupies its pipeline (jobs loaded from the store execute nothing)
 	if qv, err := sys.Quiesce(core.QuiesceOpts{Watchdog: 20 * time.Second}); err == nil {
@@ -236,6 +227,74 @@ func CheckRestartState(sys *core.Sys, specs []gen.PipeSpec, wantIDs []string, la
 		}
 	}
 	return v
+}
+
+// DrainAll releases every task gate until, at a logical quiescence, no task is left inside the monitored runner: every
+// job this runner started has then run to its end (a driver that leaves a task at its gate leaks the job's scheduler
+// loop, which polls every 200 µs for the rest of the worker process's life)
+func DrainAll(sys *core.Sys) bool {
+	for i := 0; i < 500; i++ {
+		if _, err := sys.Quiesce(core.QuiesceOpts{Watchdog: 20 * time.Second}); err != nil {
+			return false
+		}
+		for _, j := range sys.ParkedJobs() {
+			sys.Unpark(j)
+		}
+		w := sys.Gates.Waiting()
+		st := sys.Gates.Stopping()
+		if len(w) == 0 && len(st) == 0 {
+			return drainUnlisted(sys)
+		}
+		for _, k := range w {
+			sys.Gates.Release(k[0], k[1], core.Outcome{Kind: core.OutOK})
+		}
+		for _, k := range st {
+			sys.Gates.ReleaseStop(k[0], k[1])
+		}
+	}
+	return false
+}
+
+// drainUnlisted ends the jobs that are still executing but are not reported any more (a save drops the jobs of pipelines
+// that are no longer defined, whatever their state): the quiescence detector cannot see them, so their loops are
+// followed through the iteration counter instead
+func drainUnlisted(sys *core.Sys) bool {
+	v := sys.Snapshot(-1)
+	ok := true
+	for _, id := range sys.StartedJobs() {
+		if v.ByID(id) != nil {
+			continue
+		}
+		still := 0
+		last := int64(-1)
+		for i := 0; i < 20000 && still < 20; i++ {
+			did := false
+			for _, k := range sys.Gates.Waiting() {
+				if k[0] == id {
+					sys.Gates.Release(k[0], k[1], core.Outcome{Kind: core.OutOK})
+					did = true
+				}
+			}
+			for _, k := range sys.Gates.Stopping() {
+				if k[0] == id {
+					sys.Gates.ReleaseStop(k[0], k[1])
+					did = true
+				}
+			}
+			c, _ := sys.IterCount(id)
+			if did || c != last {
+				still = 0
+			} else {
+				still++
+			}
+			last = c
+			time.Sleep(300 * time.Microsecond)
+		}
+		if still < 20 {
+			ok = false
+		}
+	}
+	return ok
 }
 
 // restartProps: which properties a finding about a restarted runner refutes
